@@ -29,10 +29,14 @@ def run(rep, rng, tier):
     rep.prove('Prop_C11_source', gen_failed=regen_c11())
     zcs, sps, subs = [], [], []
 
-    def add_zc(xs, keep, tol):
+    def add_zc(xs, keep, tol, store=float):
+        # store: the numpy dtype the caller keeps the record in (raw digitiser counts are int16/int32): same numbers, same crossings
         site = 'get_zero_crossings_array_indices[keep_adj_zeros=%s,tol%s0]' % (keep, '>' if tol > 0 else '=')
         args = {'values': list(map(float, xs)), 'keep_adj_zeros': keep, 'tol': tol}
-        r = core.guarded_pure(zc, np.array(xs, dtype=float), keep_adj_zeros=keep, tol=tol)
+        if store is not float:
+            site += '[%s record]' % np.dtype(store).name
+            args['stored_as'] = np.dtype(store).name
+        r = core.guarded_pure(zc, np.array(xs, dtype=store), keep_adj_zeros=keep, tol=tol)
         if isinstance(r, ImplError):
             rep.violation(site, {'function': site, 'args': args, 'impl_error': str(r)})
             return None
@@ -41,12 +45,15 @@ def run(rep, rng, tier):
                         nontrivial=nontrivial(xs), klass=site))
         return out
 
-    def add_sp(xs, tol):
+    def add_sp(xs, tol, store=float):
         if len(set(xs)) == 1:
             return None
         site = 'get_switched_peak_array_indices[tol%s0]' % ('>' if tol > 0 else '=')
         args = {'values': list(map(float, xs)), 'tol': tol}
-        r = core.guarded_pure(sp, np.array(xs, dtype=float), tol=tol)
+        if store is not float:
+            site += '[%s record]' % np.dtype(store).name
+            args['stored_as'] = np.dtype(store).name
+        r = core.guarded_pure(sp, np.array(xs, dtype=store), tol=tol)
         if isinstance(r, ImplError):
             rep.violation(site, {'function': site, 'args': args, 'impl_error': str(r)})
             return None
@@ -106,6 +113,17 @@ def run(rep, rng, tier):
         xs, _ = gens.float_record(rng, n)
         add_zc(list(xs), rng.random() < 0.5, 0.0)
         add_sp(list(xs), 0.0)
+    # records kept in a narrow integer dtype with values near the dtype's range (products of neighbouring counts do not fit the
+    # storage type), and in float32
+    for k in range(60 if tier == 'quick' else 600):
+        store = [np.int16, np.int32, np.int64, np.float32][k % 4]
+        top = {np.int16: 30000, np.int32: 2000000000, np.int64: 3000000000, np.float32: 2 ** 20}[store]
+        n = gens.small_len(rng, 3, 40)
+        base = gens.excursion_series(rng, n)
+        m = max(1, max(abs(v) for v in base))
+        xs = [int(round(v * 4)) * (top // int(4 * m + 1)) for v in base]
+        add_zc(xs, k % 2 == 0, 0.0, store=store)
+        add_sp(xs, 0.0, store=store)
     rep.extra['exhaustive'] = True
     rep.extra['exhaustive_space'] = 'all series over {-2..2} up to length %d and {-3..3} up to %d' % (L2, L3)
     rep.correspond('model.K_peaks', 'chk_zc', zcs, max_cases=4000)
